@@ -399,3 +399,151 @@ def c06_integration(rec, obs):
     if ok0 and not ok1 and r1[1] not in ("InvalidBBANChecksum", "InvalidAccountCode"):
         return True
     return False
+
+
+def c08_generate(rec, obs):
+    """reference check of IBAN.generate(cc, bank, account, branch) on the real library's observed outcome"""
+    import schwifty
+    from schwifty import exceptions as ex
+    from spec import table
+
+    cc, bank, acct, br = [x if isinstance(x, str) else "".join(map(chr, x["cp"])) for x in rec["call"]["steps"][0][2]]
+    norm = iso13616.normalise_concrete
+    b, a, r = norm(bank), norm(acct), norm(br)
+    known = cc in table.countries()
+    pos = table.positions(cc) if known else {}
+    if obs["outcome"] == "raise":
+        if not obs["library"]:
+            return True
+        if not pos:
+            return False
+        w = {k: pos.get(k, (0, 0))[1] - pos.get(k, (0, 0))[0] for k in ("bank_code", "branch_code", "account_code")}
+        comb = len(b) == w["bank_code"] + w["branch_code"]
+        too = []
+        if len(b) > w["bank_code"] and not comb:
+            too.append("InvalidBankCode")
+        if len(r) > w["branch_code"] and not (comb and w["branch_code"]):
+            too.append("InvalidBranchCode")
+        if len(a) > w["account_code"]:
+            too.append("InvalidAccountCode")
+        return bool(too) and not any(t in obs["mro"] for t in too)
+    if not pos:
+        return True
+    w = {k: pos.get(k, (0, 0))[1] - pos.get(k, (0, 0))[0] for k in ("bank_code", "branch_code", "account_code")}
+    x = schwifty.IBAN("".join(map(chr, obs["value"]["cp"])), allow_invalid=True)
+    if not x.is_valid:
+        return True
+    comb = len(b) == w["bank_code"] + w["branch_code"] and w["branch_code"] > 0
+    if comb and r:
+        return False  # outside the claim
+    if comb:
+        want = {"bank_code": b[: w["bank_code"]], "branch_code": b[w["bank_code"] :], "account_code": a.rjust(w["account_code"], "0")}
+    else:
+        want = {"bank_code": b.rjust(w["bank_code"], "0"), "branch_code": r.rjust(w["branch_code"], "0"), "account_code": a.rjust(w["account_code"], "0")}
+    if len(b) > w["bank_code"] and not comb or len(r) > w["branch_code"] and not comb or len(a) > w["account_code"]:
+        return True
+    return any(getattr(x, k) != v for k, v in want.items())
+
+
+def c09_build(cc, kw):
+    """'ok' iff from_components(cc, **kw) returns a BBAN of the right length whose national check validates, whose
+    components read back, and IBAN.generate of the same components validates nationally (library errors from
+    from_components itself are allowed: 'ok')"""
+    import schwifty
+    from schwifty.bban import BBAN
+    from schwifty.exceptions import SchwiftyException
+    from spec import table
+
+    try:
+        x = BBAN.from_components(cc, **kw)
+    except SchwiftyException:
+        return "ok"
+    if len(x) != len(table.classes(cc)):
+        return "bad length"
+    if x.validate_national_checksum() is not True:
+        return "no True"
+    for k, v in kw.items():
+        if getattr(x, k) != v:
+            return "component " + k
+    g = schwifty.IBAN.generate(cc, kw.get("bank_code", ""), kw.get("account_code", ""), kw.get("branch_code", ""))
+    return "ok" if g.validate(validate_bban=True) is True else "generate"
+
+
+def c09_rebuild(cc, bban):
+    from schwifty.bban import BBAN
+    from schwifty.exceptions import SchwiftyException
+    from spec import table
+
+    x = BBAN(cc, bban)
+    computing = cc in ["BE", "BA", "ES", "FR", "MC", "IT", "SM", "FI", "NO", "PL", "EE", "PT", "RS", "ME", "MK", "SI", "TL", "MR", "TN"]
+    if computing:
+        try:
+            x.validate_national_checksum()
+        except SchwiftyException:
+            return "ok"
+    y = BBAN.from_components(cc, **{k: getattr(x, k) for k in table.COMPONENTS})
+    pos = {k: v for k, v in table.positions(cc).items() if v != (0, 0)}
+    covered = set()
+    for a, e in pos.values():
+        covered.update(range(a, e))
+    if len(y) != len(x):
+        return "length"
+    for i in range(len(x)):
+        if i in covered and x[i] != y[i]:
+            return f"differs at {i}"
+        if i not in covered and y[i] != "0":
+            return f"filler at {i}"
+    return "ok"
+
+
+def _c16_wrap(kind, s):
+    import schwifty
+    from schwifty.bban import BBAN
+
+    if kind == "IBAN":
+        return schwifty.IBAN(s, allow_invalid=True)
+    if kind == "BIC":
+        return schwifty.BIC(s, allow_invalid=True)
+    if kind == "BBAN":
+        return BBAN("DE", s)
+    return s
+
+
+def c16_compare(ka, a, kb, b):
+    X, Y = _c16_wrap(ka, a), _c16_wrap(kb, b)
+    na = iso13616.normalise_concrete(a) if ka != "str" else a
+    nb = iso13616.normalise_concrete(b) if kb != "str" else b
+    import operator
+
+    for name in ("eq", "ne", "lt", "le", "gt", "ge"):
+        op = getattr(operator, name)
+        if op(X, Y) is not op(na, nb):
+            return name
+    if ka != "str" and hash(X) != hash(na):
+        return "hash"
+    if ka != "str" and {X: 1}.get(na) != 1:
+        return "dict"
+    return "ok"
+
+
+def c16_copies(clsname, text, validate):
+    import copy
+    import pickle
+
+    import schwifty
+    from schwifty.bban import BBAN
+
+    if clsname == "BBAN":
+        x = BBAN("DE", text)
+    else:
+        x = getattr(schwifty, clsname)(text, allow_invalid=not validate)
+    for name, f in (("copy", copy.copy), ("deepcopy", copy.deepcopy), ("pickle", lambda o: pickle.loads(pickle.dumps(o)))):
+        y = f(x)
+        if type(y) is not type(x) or y != x or str(y) != str(x):
+            return name
+        for attr in ("country_code", "bank_code", "branch_code") + (("account_code",) if clsname != "BIC" else ()):
+            if getattr(y, attr) != getattr(x, attr):
+                return name + " " + attr
+        if clsname == "IBAN" and (type(y.bban) is not type(x.bban) or y.bban != x.bban or y.bban.country_code != x.bban.country_code):
+            return name + " bban"
+    return "ok"
